@@ -78,6 +78,15 @@ def run(case):
         for m, k in (("loose", "loose"), ("strict", "strict"), ("intersection", "inter")):
             out[k] = _oann(tb, a.crop(sup, mode=m))
             out["x" + k] = _oann(tb, a.extrude(sup, mode=m))
+        # the source is unchanged by the six derivations, and each result is a new annotation: editing it in place
+        # leaves the source alone and conversely (one mode per case, chosen from the case)
+        from harness.annutil import assert_independent, triples
+        assert triples(tb, a) == triples(tb, mk_ann(tb, case["recs"], case["uri"], case["modality"])), "crop / extrude changed their receiver"
+        m = ("loose", "strict", "intersection")[len(case["recs"]) % 3]
+        src = mk_ann(tb, case["recs"], case["uri"], case["modality"])
+        assert_independent(tb, src.crop(sup, mode=m), src, "crop")
+        src = mk_ann(tb, case["recs"], case["uri"], case["modality"])
+        assert_independent(tb, src.extrude(sup, mode=m), src, "extrude")
         return out
     finally:
         tb.leave()
